@@ -58,7 +58,7 @@ Step ==
 Done ==
   /\ l = 4
   /\ l' = l + 1
-  /\ LET f == IF IsSetup THEN Failing(JudgeSetup(T)) ELSE Failing(JudgeRun(T))
+  /\ LET f == IF IsSetup THEN Failing(JudgeSetup(T, dist)) ELSE Failing(JudgeRun(T))
          d == IF IsSetup THEN SetupDrift(T) ELSE RunDrift(T)
      IN PrintT(ToJson([tag |-> "VERDICT", id |-> T.id,
                        fails |-> fails \cup { <<l, c>> : c \in f },
